@@ -72,6 +72,9 @@ for f in PIPES:
     L.append('Lemma t_%s_ok u K A : t_%s F Finv S Sinv u K A = cust u K A.\nProof. unfold t_%s; open_pipe. field_eq. Qed.' % (f, f, f))
     L.append('Lemma t_beam_nopad_%s_ok u K A : t_beam_nopad_%s F Finv S Sinv u K A = cust u K A.\nProof. unfold t_beam_nopad_%s; open_pipe. field_eq. Qed.' % (f, f, f))
     L.append('Lemma t_beam_padcrop_%s_ok u K A : t_beam_padcrop_%s F Finv S Sinv PAD CROP u K A = CROP (cust (PAD u) K A).\nProof. unfold t_beam_padcrop_%s; open_pipe. field_eq. Qed.' % (f, f, f))
+    # each of the three zero_padding flags does its own job: [pad, -, -] pads and does not crop, [-, -, crop] crops and does not pad
+    L.append('Lemma t_beam_padonly_%s_ok u K A : t_beam_padonly_%s F Finv S Sinv PAD u K A = cust (PAD u) K A.\nProof. unfold t_beam_padonly_%s; open_pipe. field_eq. Qed.' % (f, f, f))
+    L.append('Lemma t_beam_croponly_%s_ok u K A : t_beam_croponly_%s F Finv S Sinv CROP u K A = CROP (cust u K A).\nProof. unfold t_beam_croponly_%s; open_pipe. field_eq. Qed.' % (f, f, f))
 L.append('''Lemma n_angular_spectrum_ok u H : n_angular_spectrum F Finv S Sinv u H = cust u H fone.
 Proof. unfold n_angular_spectrum; open_pipe. field_eq. Qed.
 Lemma n_band_limited_angular_spectrum_ok u H : n_band_limited_angular_spectrum F Finv S Sinv u H = cust u H fone.
